@@ -382,7 +382,7 @@ func (m *pkModel) genOp(tp *kernel.Tape, noFaults, mutOnly bool) pkOp {
 			downs = append(downs, h)
 		}
 	}
-	ws := []int{6, 3, 3, 1, 2, 2, 1, 1}
+	ws := []int{6, 3, 3, 1, 2, 1, 1, 1}
 	if len(ups) == 0 {
 		ws[opDown] = 0
 	}
@@ -1071,7 +1071,7 @@ func (r *pkRun) concurrent() {
 		}
 	}
 	shadow := m.clone()
-	nMut := 2 + tp.Next(5)
+	nMut := 3 + tp.Next(10)
 	var muts []pkOp
 	for i := 0; i < nMut; i++ {
 		op := shadow.genOp(tp, r.e.NoFaults, true)
